@@ -45,6 +45,11 @@ def check(repo, res, tier):
     res.rule('C13.E4', 'order model: no clear of an event list can run between an emit into it and the '
                        'monitor\'s next read')
     res.rule('C13.E5', 'collate_events empties each list it has read (it can run twice for one step on a pause)')
+    from . import c08
+    from .common import borrow
+    res.rule('C13.E6', 'adopted C08.A8/A9: "finished" fires exactly duration after "started" only while the telescope\'s '
+                       'in-use flag and array count are kept as begin/finish_observation leave them')
+    borrow(repo, res, tier, c08, {'C08.A8', 'C08.A9'}, 'C13.E6')
     w = witness()
     res.extra['simpy_witness'] = w
     res.assumptions += ['SimPy order model (sa/simpy_model.py): %s' % ('verified against %s' % w['simpy']
